@@ -306,7 +306,7 @@ SPECIALS = {
                         also=sp_verdict('shapes', [M, ['fixtures', 4000]], [MT, ['fixtures', 20000]], 'impl-oracle')),
     'errshift': sp_verdict('shift', [['model', 1500, 40], ['mut', 1500, 300]], [['model', 20000, 40], ['mut', 20000, 400]], 'impl-oracle',
                            also=sp_gen_tie([['exotic', 10]], [['exotic', 100]])),
-    'limits': sp_verdict('limits', [M, ['mut', 500, 300]], [MT, ['mut', 10000, 400], ['entities', 16]], 'impl-oracle'),
+    'limits': sp_verdict('limits', [M, ['mut', 500, 300], ['entities', 6]], [MT, ['mut', 10000, 400], ['entities', 16]], 'impl-oracle'),
     'dtdpairs': sp_verdict('dtdpairs', [['model', 2000, 20], ['mut', 1000, 400], ['enum', 2, 0]],
                            [['model', 30000, 20], ['mut', 20000, 1000], ['enum', 3, 0], ['fixtures', 20000]], 'impl-oracle'),
     'ord': sp_ord,
@@ -315,5 +315,7 @@ SPECIALS = {
     'pieces_text': sp_gen_tie([['pieces2-text', 2], ['entities', 8], ['exotic', 10]], [['pieces2-text', 3], ['entities', 32], ['exotic', 100]]),
     'pieces_attr': sp_gen_tie([['pieces2-attr', 2], ['entities', 8], ['exotic', 10]], [['pieces2-attr', 3], ['entities', 32], ['exotic', 100]]),
     'markup': sp_gen_tie([['exotic', 10], ['entity-boundary', 1]], [['exotic', 100], ['entity-boundary', 1]]),
+    'storage': sp_gen_tie([['pieces2-text', 2], ['pieces2-attr', 2], ['exotic', 10]], [['pieces2-text', 3], ['pieces2-attr', 3], ['exotic', 100]]),
+    'lookups': sp_gen_tie([['ns', 3]], [['ns', 40]]),
     'tree': sp_gen_tie([['entity-boundary', 1], ['entities', 4]], [['entity-boundary', 1], ['entities', 32]]),
 }
